@@ -13,9 +13,10 @@ NONASCII = "G1 X3 ; caf\u00e9 \u4e2d\n".encode("utf-8")
 STMTS = [b"G1 X1 Y2\n", b"M114\n", b"M105\n", b"G0 Z5 ; lift\n", b"  G4 P1  \n", b"T1 M6\n", b"M3 S1000\n", b"G1 X10 F600\r\n"]
 
 
-def cfg(n, err, status, inv, live=True):
+def cfg(n, err, status, inv, live=True, loss=False, old_wait=False):
     c = ["SPECIFICATION Spec", "CONSTANTS", " NStmt = %d" % n, " ErrAt = {%s}" % ",".join(map(str, err)),
-         " StatusAt = {%s}" % ",".join(map(str, status))]
+         " StatusAt = {%s}" % ",".join(map(str, status)), " LossAllowed = %s" % ("TRUE" if loss else "FALSE"),
+         " WaitWithoutListener = %s" % ("TRUE" if old_wait else "FALSE")]
     c += ["INVARIANT " + i for i in inv]
     if live:
         c.append("PROPERTY AllReturn")
@@ -104,7 +105,8 @@ def impl_conformance(traces, specs):
         (n, err, st), items = item
         path = os.path.join(workdir(), "dwconf_%d_%s_%s.json" % (n, "".join(map(str, err)), "".join(map(str, st))))
         write_json(path, [p for _, p in items])
-        c = "SPECIFICATION TSpec\nCONSTANTS\n NStmt = %d\n ErrAt = {%s}\n StatusAt = {%s}\n" % (n, ",".join(map(str, err)), ",".join(map(str, st)))
+        c = ("SPECIFICATION TSpec\nCONSTANTS\n NStmt = %d\n ErrAt = {%s}\n StatusAt = {%s}\n LossAllowed = FALSE\n WaitWithoutListener = FALSE\n"
+             % (n, ",".join(map(str, err)), ",".join(map(str, st))))
         r = tlc.validate("DirectWriteImplTrace", c, path, heap="1g", tag="dwconf")
         if r.errors:
             raise flow.MachineryError("DirectWriteImplTrace failed: %s\n%s" % (r.errors[:2], r.stdout[-1500:]))
@@ -173,6 +175,10 @@ class P(flow.Plan):
             runs.append(("dw-err%s" % "".join(map(str, err)), "DirectWriteImpl",
                          cfg(3, err, status, ["Order", "SyncModuloF12", "ErrorsSurface"]), None, []))
         runs.append(("dw-strict", "DirectWriteImpl", cfg(3, [2], [1], ["SyncStrict"], live=False), None, ["SyncStrict"]))
+        # connection loss at any position after connect(): every write() returns, and raises after the drop
+        runs.append(("dw-loss", "DirectWriteImpl", cfg(3, [2], [1], ["Order", "SyncModuloF12", "ErrorsSurface", "LossSurfaces"], loss=True), None, []))
+        # the code before fix F20: a write() after a drop that happened while idle never returns
+        runs.append(("dw-loss-F20", "DirectWriteImpl", cfg(2, [], [], ["LossSurfaces"], loss=True, old_wait=True), None, ["AllReturn"]))
         return runs
 
     def behaviours(self, tier, sd):
